@@ -34,7 +34,7 @@ def run(prop, tier):
     keep = (v.obligations, v.discharged)
     v.absorb(RS.reports(res, vec, ["memory"]), known, expect_obligations=False)
     v.obligations, v.discharged = keep
-    v.bounded = [RS.summarize(res, "memory", "MemoryImage::load/store on the compiled crate, 6 configurations (default, read-only range, ROM overlay, RAM overlay, RAM mirror, mirror+ROM+read-only): "
+    v.bounded = [RS.summarize(res, "memory", "MemoryImage::load/store on the compiled crate, 7 configurations (default, read-only range, ROM overlay, RAM overlay, RAM mirror, two read-only ranges listed high-then-low, mirror+ROM+read-only): "
                                              f"byte write/read-back/frame over 102 boundary addresses (both with and without high address bits) + {vec['memory']['random_addresses']} seeded random ones as written and as probed locations; "
                                              "16/24-bit load and store vs. composition of byte accesses at the same addresses; 24-bit wrap for 200 random addresses per configuration; laws stated in the Rust test, no Python oracle"),
                  dict(part="sc62015/core/src/lib.rs RuntimeBus (device windows)", bound="not run", note="not decided")]
